@@ -345,7 +345,7 @@ fn main() {
         } else if k < 60 {
             // precision option
             let x = random_float(&mut rng, base, maxd, 12);
-            let kind = *rng.pick(&["display", "display", "lexp"]);
+            let kind = *rng.pick(&["display", "display", "lexp", "uexp"]);
             let fprec = rng.below(maxd as u64 + 4) as i64;
             run_print(&mut log, &json!({"base": base, "mode": mode, "x": x, "kind": kind, "fprec": fprec}), "rnd");
         } else if k < 90 {
